@@ -72,6 +72,8 @@ def handlers : List (String × (Json → Except String Json)) := [
   ("C01.matmul_dia_dense", Qv.Drv.C01.matmulDiaDenseJ),
   ("C01.matmul_dense_dia", Qv.Drv.C01.matmulDenseDiaJ),
   ("C01.add_dia", Qv.Drv.C01.addDiaJ),
+  ("C01.inner_dia", Qv.Drv.C01.innerDiaJ),
+  ("C01.inner_op_dia", Qv.Drv.C01.innerOpDiaJ),
   ("C01.dia_of_dense", Qv.Drv.C01.diaOfDenseJ)
 ]
 
